@@ -75,7 +75,7 @@ func (g *GTPv2) DecodeFromBytes(data []byte, df gopacket.DecodeFeedback) error {
 		}
 		ieType := data[cIndex]
 		ieLength := binary.BigEndian.Uint16(data[cIndex+1 : cIndex+3])
-		if cIndex+4+uint16(ieLength) > uint16(dLen) {
+		if int(cIndex)+4+int(ieLength) > dLen {
 			return fmt.Errorf("IE %d exceeds packet length", ieType)
 		}
 		ieContent := data[cIndex+4 : cIndex+4+uint16(ieLength)]
